@@ -101,4 +101,24 @@ CHECKS = {
   "note": 'Trusted: TLC, the real `lace` binary built from /repo into /verif/target/lace (no cfg), Python subprocess plumbing, strace for the system-call order (C08; the check degrades to before/after bytes if ptrace is unavailable and says so in the evidence). Programs sampled (seeded) + boundary matrices.',
   "technique": 'TLA+ specs with the flag as a parameter, model-checked, + TLC validation of CLI and in-process observations under both flag values',
  },
+ "C05": {
+  "text": "TokModel.tla is the assembler front end (directive preprocessing + statement parser) as a total transition system over 22 token kinds; TLC checks every sequence up to L has a verdict and the preprocessing bound (MC_TokModel). Trace_Tok.tla validates the real assembler on EVERY token-kind sequence up to L (verdict = TokModel!TokAccepts, one test per transition of the model), every string up to M over the lexer's character classes incl. multi-byte characters, mutated programs and size extremes: result is Ok or an Err whose diagnostic renders and whose spans lie inside the source; a panic is an unexplained event.",
+  "note": 'Trusted: TLC, catch_unwind-based panic observation in the harness (dev profile: overflow checks on). Non-termination would be a harness timeout (tool error). Memory safety of unsafe code is out of scope.',
+  "technique": 'TLA+ total-transition-system model of the front end + exhaustive bounded replay of its transitions into the real assembler',
+ },
+ "C17": {
+  "text": 'Assembler!Lines/Sym give label lines; the renderer records the text of every statement it wrote; Debugger!CmdResult for `assembly` returns texts[address - origin] (nothing where there is no statement) and label locations resolve to origin + line - 1 + offset. Trace_Debug.tla validates real debugger sessions that query every address from origin-1 to one past the image and every label of arbitrary rendered programs.',
+  "note": "Trusted: TLC, the hooks, the renderer's record of statement texts (an error there shows as a false VIOLATION, not a miss).",
+  "technique": 'TLA+ spec of statement spans / label addresses + trace validation of `assembly`, `goto`, `print`, `break add` output on rendered programs',
+ },
+ "C19": {
+  "text": 'MC_Session.tla models the symbol table across assemblies in one thread: with ResetState between, the k-th result equals the fresh result (Pure); without it TLC finds the stale-table counterexample (sanity, required by the check). Trace_Asm.tla validates sequences of valid / lexer-failing / late-failing / label-sharing sources assembled on ONE thread with reset_state() in between, twice, against both Assembler.tla and a fresh-thread assembly of the same text (verdict, origin, words, rendered diagnostic).',
+  "note": 'Trusted: TLC, thread-local isolation of a fresh thread as the reference. hotwatch event delivery is not driven.',
+  "technique": 'TLA+ model of global assembler state across assemblies + trace validation of same-thread sequences against spec and fresh-thread results',
+ },
+ "C20": {
+  "text": "Editor.tla is the reference line editor (character-indexed buffer, history focus/copy rules, Vim-like word motions, ';' splitting). TLC checks CursorInside/IndexInside for ALL key sequences keeping the line <= N characters (MC_Editor); Trace_Editor.tla validates the real Terminal fed through the injected key source: every sequence of L keys over 22 keys (incl. 2-, 3- and 4-byte characters) after seeded prefixes from three histories, plus random 20-200 key sequences - buffer, focused line, cursor, history index after every key and every command handed out on Enter.",
+  "note": 'Trusted: TLC, the cfg-gated key source and Terminal constructor (no TTY / history file). term::read_key and prompt drawing are bypassed.',
+  "technique": 'TLA+ reference editor model-checked for unbounded key sequences on a bounded buffer + trace validation of the real editor per key',
+ },
 }
